@@ -248,6 +248,36 @@ def observe(store, layout, orng, cap_hint):
     return summary, data, query, res
 
 
+def own_list_probe(rep, rng):
+    """the indices of an add() may be an array the store itself handed out: occupied_list (a read-only VIEW of the store's own
+    bookkeeping array, which add() rewrites) taken before a clear() and used to put entries back -- each value must land at its index"""
+    from ribs.archives import ArrayStore
+    for _ in range(20):
+        cap = rng.choice([4, 7, 12])
+        order = rng.sample(range(cap), rng.randint(2, min(cap, 5)))
+        s = ArrayStore({"o": ((), np.float64), "v": ((2,), np.float32)}, cap)
+        for i in order:
+            s.add([i], {"o": [0.0], "v": [[0.0, 0.0]]}, {}, [])
+        ol = s.occupied_list
+        want = {int(i): 100.0 + k for k, i in enumerate(ol)}
+        s.clear()
+        vals = [want[int(i)] for i in ol]
+        rep.count("own_list_probes")
+        try:
+            s.add(ol, {"o": vals, "v": [[v, -v] for v in vals]}, {}, [])
+        except Exception as e:  # noqa
+            rep.violation("ArrayStore.add(store.occupied_list, ...) after clear() raised %r" % (e,), {"kind": "property", "order": order, "capacity": cap}, True,
+                          {"kind": "store-add-own-occupied-list"})
+            return
+        occ, got = s.retrieve(sorted(want), "o")
+        got = {i: float(x) for i, x in zip(sorted(want), got)}
+        if not bool(np.all(occ)) or got != want or len(s) != len(want):
+            rep.violation("ArrayStore: entries first added at indices %s; ol = occupied_list; clear(); add(ol, o=%s): retrieve gives %s, written was %s" % (
+                order, vals, got, want), {"kind": "property", "broken": "data written at an index is what retrieve and data return for it",
+                                          "order": order, "capacity": cap, "written": want, "retrieved": got}, True, {"kind": "store-add-own-occupied-list"})
+            return
+
+
 def index_container(idxs, salt):
     """the indices an add() names, in the container types a caller may use (int32 / int64 / unsigned arrays, python list, tuple)"""
     kind = salt % 6
@@ -579,6 +609,7 @@ def check(rep, tier, seed, driver):
     from common import CORPUS
     py2v_store.report(rep)
     py2v_storeops.report(rep)
+    own_list_probe(rep, random.Random(seed + 3))
     rng = random.Random(seed)
     n = 1500 if tier == "quick" else 20000
     rep.rule = ("random ArrayStore histories (add with arbitrary/repeated/unsorted indices and transform chains, malformed adds, "
